@@ -184,6 +184,14 @@ def gen_probe(rng: random.Random) -> dict[str, Any]:
         extra.append(progen.block(".macro pool_redef(a) {", [progen.stmt(".db a")], "macro_def"))
         extra.append(progen.stmt("pool_redef(7)"))
         negatives.append("redefine_macro")
+    if rng.random() < 0.25 and mapping != "any":
+        # code position and relocation address computed from a label / an '=' symbol of the probe itself
+        extra.append(progen.stmt("p_anchor:", "label"))
+        extra.append(progen.stmt(".db 0x5a"))
+        extra.append(progen.stmt(rng.choice(["*=p_anchor + 0x20", "@=p_anchor + 0x100", "p_off = 0x40\n*=p_anchor + p_off"]), "stareq"))
+        extra.append(progen.stmt("p_after:", "label"))
+        extra.append(progen.stmt(".dl p_after"))
+        negatives.append("label_relative_position")
     if rng.random() < 0.35:
         # own table; text contains characters only the history's table knows (skipped when alone)
         prog.files["p_own.tbl"] = PROBE_TABLE.encode()
@@ -238,6 +246,9 @@ def spec_for(entry: str, src: str, out_prefix: str, mapping: str, defines: list[
         spec["copier"] = fmt == "ips" and rng.random() < 0.3
         spec["out"] = out_prefix + "out." + fmt
         spec["dump_symbols"] = rng.random() < 0.2
+        spec["verbose"] = rng.random() < 0.25
+        if rng.random() < 0.3:
+            spec["argv_style"] = rng.getrandbits(16)  # other spellings; defaults (-f ips, -m low) may be left out
     return spec
 
 
